@@ -369,6 +369,88 @@ func c05RemoveScenario(move bool) *Scenario {
 	return sc
 }
 
+// c05SwapScenario: a redeploy of svc0 that keeps its bindings overlaps with "remove svc0; deploy svc1 on the
+// same pair" issued by another operator. Whatever the order, at most one of them may own the pair in the end.
+func c05SwapScenario(sameRoutes bool) *Scenario {
+	sc := &Scenario{Name: fmt.Sprintf("C05 redeploy-vs-remove+deploy sameRoutes=%v", sameRoutes), Horizon: 60 * time.Second}
+	X := "x.example.com"
+	var re, rm, other *CmdObs
+	var listed ServiceDescriptionMap
+	var pX *ReqObs
+	sc.Run = func(w *World) {
+		re, rm, other = nil, nil, nil
+		for _, n := range []string{"r0:80", "r0b:80", "r1:80"} {
+			w.AddTarget(n)
+		}
+		if r := w.Deploy(deployArgs("svc0", []string{"r0:80"}, []string{X}, nil)); r.Err != nil {
+			w.Note("setup: %v", r.Err)
+			return
+		}
+		time.Sleep(100 * time.Millisecond)
+		var wg vsync.WaitGroup
+		w.S.SetWindow(true)
+		wg.Add(2)
+		vsched.GoTagged("cmd", func() {
+			defer wg.Done()
+			hosts := []string{X}
+			if !sameRoutes {
+				hosts = []string{X, "y.example.com"}
+			}
+			re = w.Deploy(deployArgs("svc0", []string{"r0b:80"}, hosts, nil))
+		})
+		vsched.GoTagged("cmd", func() {
+			defer wg.Done()
+			rm = w.Remove("svc0")
+			other = w.Deploy(deployArgs("svc1", []string{"r1:80"}, []string{X}, nil))
+		})
+		wg.Wait()
+		w.S.SetWindow(false)
+		time.Sleep(200 * time.Millisecond)
+		listed, _ = w.List()
+		pX = w.Do(ReqSpec{ID: "probe-x", Host: X, Path: "/x"})
+	}
+	sc.Check = func(w *World) []Violation {
+		var vs []Violation
+		for _, n := range w.Notes {
+			vs = append(vs, Violation{"C05", "setup", n})
+		}
+		if len(vs) > 0 || re == nil || rm == nil || other == nil || !re.Done || !other.Done || pX == nil {
+			return vs
+		}
+		for _, c := range []*CmdObs{re, other} {
+			if c.Err != nil && !errors.Is(c.Err, ErrorHostInUse) {
+				vs = append(vs, Violation{"C05", "unexpected-error", fmt.Sprintf("%s %s: %v", c.Name, c.Args, c.Err)})
+			}
+		}
+		_, has0 := listed["svc0"]
+		_, has1 := listed["svc1"]
+		if has0 && has1 {
+			vs = append(vs, Violation{"C05", "two-racing-deploys-both-succeeded", fmt.Sprintf("svc0 and svc1 are both deployed on %s/ (redeploy: %v, deploy of svc1: %v)", X, re.Err, other.Err)})
+		}
+		if other.Err == nil && !has1 {
+			vs = append(vs, Violation{"C05", "list-does-not-match-successful-deploys", "svc1 was deployed successfully and never removed but is not listed"})
+		}
+		if other.Err != nil && !has0 {
+			vs = append(vs, Violation{"C05", "deploy-rejected-without-conflicting-owner", fmt.Sprintf("svc1 rejected (%v) but svc0 does not exist", other.Err)})
+		}
+		want := ""
+		switch {
+		case has1 && !has0:
+			want = "r1:80"
+		case has0 && !has1:
+			want = "r0b:80"
+		}
+		if want != "" && pX.ServedBy() != want {
+			vs = append(vs, Violation{"C05", "owned-pair-not-routed-to-owner", fmt.Sprintf("%s/ is owned by the service with target %s but the request got %s", X, want, pX.Summary())})
+		}
+		if !has0 && !has1 && pX.ServedBy() != "" {
+			vs = append(vs, Violation{"C05", "loser-left-routing-behind", fmt.Sprintf("nobody is listed on %s but a request was served by %s", X, pX.ServedBy())})
+		}
+		return vs
+	}
+	return sc
+}
+
 func checkC05(t *testing.T, job *Job, res *Result) {
 	tier := job.Tier
 	if job.Replay != nil {
@@ -381,12 +463,12 @@ func checkC05(t *testing.T, job *Job, res *Result) {
 	for _, c := range c05Configs(tier) {
 		scs = append(scs, c05Scenario(c))
 	}
-	scs = append(scs, c05RemoveScenario(false), c05RemoveScenario(true))
+	scs = append(scs, c05RemoveScenario(false), c05RemoveScenario(true), c05SwapScenario(true), c05SwapScenario(false))
 	b := Bounds{D: 2, S: 0}
 	if tier == "thorough" {
 		b = Bounds{D: 3, S: 0}
 	}
-	res.Rule = "engine S part: 2-3 concurrent deploys of different services whose bindings overlap (identical host, default host, one shared of several, shared path, wildcard, owned by a third service, redeploy moving onto the pair); every schedule within the bounds; oracle: successful deploys pairwise conflict-free, every rejection justified by a successful owner, every owned pair routes to its owner, losers leave nothing routed, list = winners; plus the removal of a service racing with the deploy (or host-moving redeploy) of an unrelated one, followed sequentially by deploys that try to take the pair just bound (must be refused) and the pairs just freed (must succeed)"
+	res.Rule = "engine S part: 2-3 concurrent deploys of different services whose bindings overlap (identical host, default host, one shared of several, shared path, wildcard, owned by a third service, redeploy moving onto the pair); every schedule within the bounds; oracle: successful deploys pairwise conflict-free, every rejection justified by a successful owner, every owned pair routes to its owner, losers leave nothing routed, list = winners; plus the removal of a service racing with the deploy (or host-moving redeploy) of an unrelated one, followed sequentially by deploys that try to take the pair just bound (must be refused) and the pairs just freed (must succeed); plus a redeploy of a service (keeping or extending its bindings) racing with 'remove it; deploy another service on its pair'"
 	if job.Replay == nil || job.Replay.Engine == "S" {
 		runS(t, job, res, "C05", scs, b, 0)
 	}
